@@ -24,7 +24,7 @@ RULE = ('metamorphic + stream-conservation monitor: base files with long '
         'Non-trivial = file has >= 3 content sections; distinct = (file, '
         'padding / block size) by construction.')
 FLOOR = {'quick': 8000, 'thorough': 200000}
-REQUIRED_REACH = ['DiffXReader._read_until']
+REQUIRED_REACH = ['reader.py:']
 REQUIRED_COUNTERS = ['paddings_checked', 'block_sizes_checked',
                      'position_at_yield_checked', 'real_file_reads']
 ASSUMPTIONS = [
@@ -224,7 +224,7 @@ def check_file(data, layout, obs, rng, pads, sizes, real_file=False):
 def run(ctx):
     obs = ctx.obs
     rng = ctx.rng
-    nfiles = ctx.share(ctx.pick(48, 1000))
+    nfiles = ctx.share(ctx.pick(64, 3000))
     pads = list(range(0, 2 * BLOCK + 1))
     sizes = list(range(1, 2 * BLOCK + 1)) + [1000, 10 ** 6]
     done = 0
